@@ -5,14 +5,19 @@
     * go-wire primitives every consensus value is built from: varint round trip, totality of the
       decoders (value or error, never a panic), bounded allocation of ReadByteSlice under a limit,
       the length prefix is a prefix code (injectivity), time round trip and (repaired) totality;
-    * RLP: decode ∘ encode = id for every item tree (any depth, payloads < 2^64).
+    * RLP: decode ∘ encode = id for every item tree (any depth, payloads < 2^64);
+    * the canonical sign-bytes of a VOTE (Model/SignBytes.lean: go-wire's JSON of
+      CanonicalJSONOnceVote with `omitempty` on the block id's hash and parts, hex byte strings,
+      decimal integers - compared character for character with types.SignBytes on every run) are
+      INJECTIVE for one chain id: equal text implies equal height, round, type and block id.
   NOT proved (stated so in MANIFEST/evidence; covered by the differential oracle of the c18 engine
   on the real reflect-based codec): struct-level binary/JSON round trips of the registered
-  consensus types, and injectivity of the canonical sign-bytes (checked pairwise on single-field
+  consensus types, sign-bytes of proposals and across chain ids (checked pairwise on single-field
   differences).
 -/
 import AnnVerif.Lemmas.WirePrim
 import AnnVerif.Lemmas.Rlp
+import AnnVerif.Lemmas.SignBytes
 namespace AnnVerif.C18
 open AnnVerif AnnVerif.WirePrim
 
@@ -57,5 +62,22 @@ example : Rlp.smallOne (.list [.str [1], .list [.str [], .str [0x80, 1]]]) := by
   simp [Rlp.smallOne, Rlp.smallItems, Rlp.encodeList, Rlp.encode, Rlp.encodeStr, Rlp.header]
 example : Rlp.encode (.list [.str [1], .list [.str [], .str [0x80, 1]]]) =
     [0xc6, 0x01, 0xc4, 0x80, 0x82, 0x80, 0x01] := by decide
+
+/-- C18.9 sign-bytes of votes are injective: two votes of one chain with the same sign-bytes agree in
+    height, round, type and block id (hash, parts total, parts hash) - so a signature over the
+    sign-bytes commits to all of them, whatever their values -/
+theorem vote_sign_bytes_injective (chain : List Char) (h h' r r' : Int) (t t' : Nat) (b b' : VoteSet.BlockID)
+    (e : SignBytes.voteJson chain h r t b = SignBytes.voteJson chain h' r' t' b') :
+    h = h' ∧ r = r' ∧ t = t' ∧ b = b' :=
+  SignBytes.voteJson_injective chain h h' r r' t t' b b' e
+
+/-- the pieces: a hex string is read back up to the closing quote, a decimal up to the next
+    character that cannot be part of one -/
+theorem hex_text_injective (a b : Bytes) (e : SignBytes.hexOf a = SignBytes.hexOf b) : a = b := SignBytes.hexOf_inj a b e
+theorem decimal_text_injective (i j : Int) (e : SignBytes.decOf i = SignBytes.decOf j) : i = j := SignBytes.decOf_inj i j e
+
+/-- the nil block id and the three other shapes `omitempty` produces are told apart -/
+example : SignBytes.bidJson ⟨[], 0, []⟩ = ['{', '}'] ∧
+    SignBytes.bidJson ⟨[], 0, [9]⟩ ≠ SignBytes.bidJson ⟨[9], 0, []⟩ := by decide
 
 end AnnVerif.C18
